@@ -159,7 +159,7 @@ CHECKS = {
     },
     "C11": {
         "groups": [
-            {"pkg": "Havoc/cmd/server", "with": SRV_WITH, "entries": ["H_c11_append", "H_c11_replay", "H_c11_fanout", "H_c11_fault", "H_c11_listener_prune"], "no_native_witness": True, "no_native_replay": True},
+            {"pkg": "Havoc/cmd/server", "with": SRV_WITH, "entries": ["H_c11_append", "H_c11_replay", "H_c11_fanout", "H_c11_fault", "H_c11_listener_prune", "H_c11_disconnect"], "no_native_witness": True, "no_native_replay": True},
         ],
         "bounds": "append: 0..3 (thorough 0..8) retained events + one event with arbitrary code / one-shot flag; replay: 0..3 retained events, 0..2 agents with symbolic active flag; fan-out: 1..3 (thorough 1..5) clients, any excluded id, at most one dead transport, arbitrary event code; listener pruning: 1..4 (thorough 1..6) retained listener/chat events of 5 kinds; fault: 2..3 sends/broadcasts to two clients with a write fault possible at every write.",
         "outside": "a peer that stalls without error (needs time); websocket framing; concurrent broadcasters",
